@@ -29,6 +29,8 @@ struct Operand {
   std::unique_ptr<hll_sketch> sk;
   unsigned lg_k = 0; int type = 0; bool full = false;
   int mode = -1;                      // observed from the operand's own image
+  bool has_ge32 = false;              // holds a planted rare input with coupon value >= 32 (coverage only)
+  bool ge32_mod4_3 = false;           // ... whose slot index is 3 mod 4
   bool all_at_curmin = false;         // HLL_4 operand with cur_min > 0 and every slot exactly at cur_min (coverage only)
   unsigned cur_min = 0;               // HLL_4 operands in HLL mode: cur_min field of the own image (coverage only)
   unsigned min_reg = 0;               // smallest decoded register (HLL mode; > 0 means every slot was hit) (coverage only)
@@ -86,7 +88,13 @@ static void classify(Engine& E, const Operand& op, bool rvalue) {
   E.fresh = nf;
   // the source is folded into a smaller register array (mergeHll with src_k > dst_k)
   const bool folded = op.mode == M_HLL && ((g_reports_empty || gm != HLL) ? op.lg_k > E.lg_max_k : op.lg_k > glgk);
+  if (op.mode == M_HLL && !g_reports_empty && gm == HLL && op.lg_k < glgk) count("gadget_fold_gap_" + std::to_string(glgk - op.lg_k));
+  if (op.has_ge32 && op.mode == M_HLL && !folded) count(std::string("same_k_merge_from_") + type_name(op.type) + "_operand_with_register_ge32");
   if (folded) {
+    const unsigned tgt_lg = (g_reports_empty || gm != HLL) ? E.lg_max_k : glgk;
+    count("fold_gap_" + std::to_string(op.lg_k - tgt_lg) + "_" + type_name(op.type));
+    if (op.has_ge32) count(std::string("downsample_from_") + type_name(op.type) + "_operand_with_register_ge32");
+    if (op.has_ge32 && op.ge32_mod4_3) count(std::string("downsample_from_") + type_name(op.type) + "_operand_with_register_ge32_slot_mod4_eq3");
     count(std::string("downsample_from_") + type_name(op.type) + "_operand");
     if (op.min_reg > 0) count(std::string("downsample_from_dense_") + type_name(op.type) + "_operand");
     if (op.type == 0 && op.cur_min > 0) count("downsample_from_hll4_operand_with_curmin_gt0");
@@ -221,11 +229,41 @@ void run_case(uint64_t idx, Rng& r) {
   const unsigned LGMAX = T ? 21 : 13;
   unsigned lg_max_k = static_cast<unsigned>((T && r.chance(0.12)) ? r.range(14, 21) : r.range(4, 13));
   Cfg cfg; cfg.salt = r.next(); cfg.fixed_kind = r.chance(0.6) ? -1 : static_cast<int>(r.pick({int(V_U64), int(V_I64), int(V_F64), int(V_STR), int(V_BYTES), int(V_I32), int(V_F32)}));
-  const size_t nops = static_cast<size_t>(r.range(2, 6));
-  const bool scenario = r.chance(0.12) && lg_max_k < LGMAX;   // first operand must be down-sampled, second is HLL-mode
+  // gap cases: a fixed handful per run (case index 0..3) with an HLL-mode operand of lg_k 20/21 (started full-size, 2e5
+  // inputs) folded by 16 or 17 bits, either directly (lg_max_k 4/5) or as the gadget shrunk by a later lg_k 4/5 operand;
+  // thorough additionally sweeps every fold gap 1..17 x source type x both roles (case index 4..207)
+  const bool gap_fixed = idx < 4;
+  const bool gap_sweep = T && idx >= 4 && idx < 4 + 17 * 3 * 2 * 2;
+  const bool gap_case = gap_fixed || gap_sweep;
+  size_t nops = static_cast<size_t>(r.range(2, 6));
+  size_t gap_at = 99, gap_small_at = 99;
+  unsigned gap_src = 0, gap_small = 0; int gap_type = 2; uint64_t gap_cnt = 0;
+  if (gap_case) {
+    int role = 0; unsigned gap = 16;
+    if (gap_fixed) {
+      switch (idx) {
+        case 0: gap_src = 20; gap = 16; gap_type = 2; role = 0; break;
+        case 1: gap_src = 21; gap = 17; gap_type = 2; role = 0; break;
+        case 2: gap_src = 21; gap = 16; gap_type = 2; role = 1; break;
+        default: gap_src = 20; gap = 16; gap_type = static_cast<int>(r.below(2)); role = 1; break;
+      }
+    } else {
+      const uint64_t j = idx - 4;
+      gap = 1 + static_cast<unsigned>(j % 17); gap_type = static_cast<int>((j / 17) % 3); role = static_cast<int>((j / 51) % 2);
+      gap_src = static_cast<unsigned>(r.range(gap + 4, 21));
+    }
+    nops = role == 0 ? static_cast<size_t>(r.range(2, 3)) : static_cast<size_t>(r.range(2, 3));
+    gap_at = 0;
+    if (role == 0) lg_max_k = gap_src - gap;
+    else { lg_max_k = gap_src; gap_small = gap_src - gap; gap_small_at = 1; }
+    gap_cnt = std::min<uint64_t>(200000, std::max<uint64_t>(64, 6ULL << gap_src));
+    cfg.fixed_kind = V_U64;
+    count("gap_cases");
+  }
+  const bool scenario = !gap_case && r.chance(0.12) && lg_max_k < LGMAX;   // first operand must be down-sampled, second is HLL-mode
   // dense scenario: an operand filled past ~k ln k (every slot hit, HLL_4 cur_min > 0) that must be folded down:
   //   variant 1: its lg_k is above lg_max_k;  variant 2: another HLL-mode operand of smaller lg_k shrinks the gadget
-  const int dense_variant = (!scenario && r.chance(0.16)) ? 1 + static_cast<int>(r.below(2)) : 0;
+  const int dense_variant = (!gap_case && !scenario && r.chance(0.16)) ? 1 + static_cast<int>(r.below(2)) : 0;
   size_t dense_at = nops, small_at = nops;
   unsigned dense_lg_k = 0;
   if (dense_variant == 1) { lg_max_k = static_cast<unsigned>(r.range(4, 8)); dense_lg_k = static_cast<unsigned>(std::min<int64_t>(10, lg_max_k + (r.chance(0.6) ? 1 : r.range(2, 3)))); dense_at = r.below(nops); }
@@ -236,10 +274,16 @@ void run_case(uint64_t idx, Rng& r) {
   // level scenario: an operand (lg_k 4..7, mostly HLL_4) whose inputs were selected with the reference hash so that every
   // slot sits at exactly one value v (HLL_4: cur_min = v, all slots at cur_min), presented to a union that copies /
   // converts it (lg_max_k >= its lg_k) or folds it
-  const bool level_case = !scenario && dense_variant == 0 && r.chance(0.08);
+  const bool level_case = !gap_case && !scenario && dense_variant == 0 && r.chance(0.08);
   const size_t level_at = level_case ? r.below(nops) : nops;
   unsigned level_lg_k = 0;
   if (level_case) { level_lg_k = static_cast<unsigned>(r.range(4, 7)); if (r.chance(0.75)) lg_max_k = static_cast<unsigned>(r.range(level_lg_k, 10)); else lg_max_k = static_cast<unsigned>(r.range(4, level_lg_k)); }
+  // rare scenario: an HLL-mode operand (HLL_6 half of the time) one or two bits above lg_max_k that holds one of the
+  // hard-coded rare inputs with coupon value >= 32 (mostly one whose slot index is 3 mod 4) and is folded by the union
+  const bool rare_case = !gap_case && !scenario && dense_variant == 0 && !level_case && !rare_keys().empty() && r.chance(0.12);
+  size_t rare_at = 99;
+  if (rare_case) { lg_max_k = static_cast<unsigned>(r.range(4, 11)); rare_at = r.below(nops); count("rare_scenario_cases"); }
+  if (rare_keys().size() < 2) count("rare_keys_failed_verification");
   std::vector<Operand> ops(nops);
   // planted pair of inputs whose coupons share the full 26-bit address but differ in value (two distinct coupons in
   // coupon mode, one register in HLL mode): the two halves go to the same or to different operands
@@ -251,7 +295,7 @@ void run_case(uint64_t idx, Rng& r) {
   std::string cdesc = "lg_max_k=" + std::to_string(lg_max_k) + " ops=[";
   for (size_t i = 0; i < nops; ++i) {
     Operand& op = ops[i];
-    op.raw = !(scenario && i < 2) && i != dense_at && i != small_at && i != level_at && r.chance(0.2);
+    op.raw = !(scenario && i < 2) && i != dense_at && i != small_at && i != level_at && i != gap_at && i != gap_small_at && i != rare_at && r.chance(0.2);
     std::vector<uint64_t> level_keys;
     uint64_t cnt;
     unsigned dense_target = 0;          // dense operands: feed until every slot holds at least this value (model), then a little more
@@ -274,8 +318,15 @@ void run_case(uint64_t idx, Rng& r) {
       else if (i == small_at) { op.lg_k = static_cast<unsigned>(r.chance(0.6) ? dense_lg_k - 1 : r.range(4, dense_lg_k - 1)); want = 99; }
       else if (op.lg_k <= 8 && want >= 48 && r.chance(0.2)) dense = true;
       if (dense) { op.full = r.chance(0.1); op.type = r.chance(0.5) ? 0 : static_cast<int>(1 + r.below(2)); }
+      if (i == gap_at) { op.lg_k = gap_src; op.type = gap_type; op.full = true; dense = false; }
+      if (i == gap_small_at) { op.lg_k = gap_small; want = 99; op.full = r.coin(); dense = false; }
+      if (i == rare_at) {
+        op.lg_k = static_cast<unsigned>(std::min<int64_t>(LGMAX, lg_max_k + r.range(1, 2))); want = 99; dense = false;
+        const uint64_t tt = r.below(4); op.type = tt < 2 ? 1 : (tt == 2 ? 0 : 2);
+      }
       k = 1ULL << op.lg_k; thr = op.lg_k >= 8 ? (3 * (k >> 3)) / 4 : 8;
-      if (i == level_at) {
+      if (i == gap_at) cnt = gap_cnt;
+      else if (i == level_at) {
         op.lg_k = level_lg_k; op.full = r.chance(0.1); op.type = r.chance(0.7) ? 0 : static_cast<int>(1 + r.below(2));
         level_keys = level_stream(r, op.lg_k, static_cast<unsigned>(1 + r.below(3)), static_cast<unsigned>(r.chance(0.5) ? 0 : r.below(3)));
         cnt = level_keys.size(); dense = false;
@@ -300,7 +351,7 @@ void run_case(uint64_t idx, Rng& r) {
     }
     // items: a window of the shared universe (overlaps between operands are likely)
     // (a dense operand mostly gets a window of its own: otherwise the other operands re-supply its registers)
-    const uint64_t base = universe == 0 ? 0 : ((i == dense_at && r.chance(0.75)) ? universe : r.below(universe + 1));
+    const uint64_t base = universe == 0 ? 0 : (((i == dense_at && r.chance(0.75)) || i == gap_at) ? universe : r.below(universe + 1));
     if (!op.raw) op.sk.reset(new hll_sketch(static_cast<uint8_t>(op.lg_k), tgt(op.type), op.full));
     std::vector<uint8_t> dregs;
     size_t below_target = 0;
@@ -312,11 +363,21 @@ void run_case(uint64_t idx, Rng& r) {
       if (ph < cnt || pl < cnt) count("planted_same_address_coupon_halves");
       if (ph < cnt && pl < cnt) count("planted_same_address_pair_in_one_operand");
     }
+    uint64_t prare = cnt;               // position of a planted rare input (coupon value >= 32)
+    RareKey rk{0, 0};
+    if (!op.raw && cnt >= 1 && !dense_target && level_keys.empty() && !rare_keys().empty() && (i == rare_at || r.chance(0.04))) {
+      const auto& rks = rare_keys();
+      rk = rks[r.below(rks.size())];
+      if (i == rare_at && r.chance(0.7)) for (const auto& q : rks) if ((q.coupon & 3u) == 3u && r.chance(0.6)) { rk = q; break; }
+      prare = r.below(cnt);
+      if (prare == ph || prare == pl) prare = cnt; else { op.has_ge32 = true; op.ge32_mod4_3 = (rk.coupon & 3u) == 3u; count("rare_value_ge32_inputs_planted"); }
+    }
     for (uint64_t j = 0; j < cnt; ++j) {
       Val v;
       if (!level_keys.empty()) { v.kind = V_U64; v.u = level_keys[j]; } else v = make_val(cfg, base + j);
       if (j == ph) { v = Val(); v.kind = V_U64; v.u = plant_pair.x_hi; }
       if (j == pl) { v = Val(); v.kind = V_U64; v.u = plant_pair.x_lo; }
+      if (j == prare) { v = Val(); v.kind = V_U64; v.u = rk.x; }
       if (!v.ignored()) {
         const uint32_t c = coupon_of(v);
         op.coupons.push_back(c);
@@ -412,7 +473,7 @@ void run_case(uint64_t idx, Rng& r) {
     }
     ++done;
   };
-  if (nops <= 4 && !any_big) {
+  if (nops <= 4 && (!any_big || gap_case)) {
     do { run_perm(perm); } while (std::next_permutation(perm.begin(), perm.end()));
     count("exhaustive_permutation_cases");
   } else {
